@@ -2,6 +2,7 @@
 package c13
 
 import (
+	"sort"
 	"sync"
 	"fmt"
 	"os"
@@ -733,4 +734,74 @@ func instanceOf(pat string, member bool) string {
 		return b.String()
 	}
 	return "#" + b.String()
+}
+
+// TestOneStatementManySubjects: ONE like statement (built once, through the constructor and through FromIPLD) evaluated
+// against MANY subjects one after the other - every string over {a, b, X} up to length 6, longest first and shortest
+// first, then the shuffled rest - for every pattern over {a, b, *} up to length 5 and a few with escapes. Every answer
+// is the glob language's answer for that subject: what the statement has matched before (subjects that made a matcher
+// back up, subjects that matched at once) does not change what it matches next.
+func TestOneStatementManySubjects(t *testing.T) {
+	ctx := &h.Ctx{P: P, T: t}
+	var subjects []string
+	var gen func(prefix string, n int)
+	gen = func(prefix string, n int) {
+		subjects = append(subjects, prefix)
+		if n == 0 {
+			return
+		}
+		for _, ch := range []string{"a", "b", "X"} {
+			gen(prefix+ch, n-1)
+		}
+	}
+	gen("", 6)
+	nodes := map[string]ipld.Node{}
+	for _, s := range subjects {
+		nodes[s] = basicnode.NewString(s)
+	}
+	desc := append([]string{}, subjects...)
+	sort.SliceStable(desc, func(i, j int) bool { return len(desc[i]) > len(desc[j]) })
+	asc := append([]string{}, subjects...)
+	sort.SliceStable(asc, func(i, j int) bool { return len(asc[i]) < len(asc[j]) })
+	var pats []string
+	var genp func(prefix string, n int)
+	genp = func(prefix string, n int) {
+		if strings.Contains(prefix, "*") {
+			pats = append(pats, prefix)
+		}
+		if n == 0 {
+			return
+		}
+		for _, ch := range []string{"a", "b", "*"} {
+			genp(prefix+ch, n-1)
+		}
+	}
+	genp("", 5)
+	pats = append(pats, `a\**\*b`, `\**a`, `a*\\`, `ab*ba*ab`, `aXb*bXa`, `X*X`, `aa*aa*aa`)
+	n := 0
+	for pi, pat := range pats {
+		if !h.Thorough() && pi%2 == 1 && len(pat) == 5 {
+			continue // quick: half of the longest patterns
+		}
+		for _, viaIPLD := range []bool{false, true} {
+			p, err := pol.Policy{{Op: "like", Sel: sel.Sel{{Kind: "id"}}, Pat: pat}}.Build(viaIPLD)
+			if err != nil {
+				continue
+			}
+			for oi, order := range [][]string{desc, asc} {
+				for _, s := range order {
+					want, _ := pol.Glob(pat, s)
+					got, _ := p.Match(nodes[s])
+					n++
+					if got != want {
+						ctx.Fail("C13/glob/history/one-statement-many-subjects", "like %q (one statement object, IPLD-built: %v) on %q, after it has been evaluated on other subjects (pass %d): got %v, the glob language says %v", pat, viaIPLD, s, oi, got, want)
+						return
+					}
+				}
+			}
+		}
+	}
+	P.EvalN(n)
+	P.AddDistinct(len(pats))
+	P.SetExtra("one_statement_many_subjects_evaluations", n)
 }
